@@ -71,6 +71,12 @@ def roles(model):
             return {c.func.attr for c in ast.walk(m) if isinstance(c, ast.Call) and isinstance(c.func, ast.Attribute)
                     and isinstance(c.func.value, ast.Name) and c.func.value.id == "self"}
         both = selfcalls(r["FWD"]) & selfcalls(r["BACK"])
+        if len(both) > 1 and "CHILDS" in r:
+            # several shared helpers: the child-current sum is the one that loops over a node's child list
+            def sums_children(name):
+                m = model.own_method("System", name)
+                return m is not None and any(isinstance(l, ast.For) and ast.unparse(l.iter).startswith("self.%s[" % r["CHILDS"]) for l in ast.walk(m))
+            both = {b for b in both if sums_children(b)}
         if len(both) == 1:
             r["CHILD_I"] = both.pop()
     need = ["PARENTS", "CHILDS", "TOPO", "PHLK", "SOLVER", "FWD", "BACK", "CHILD_I", "REL_UPDATE", "SET_PHLK"]
@@ -98,7 +104,21 @@ class SysHooks:
             m = self.model.own_method("System", fname[5:])
             if m is not None:
                 return m, True
+        # a small private helper without loops (extracted from a pass or a report) is read as part of its caller
+        if fname.startswith("self._") and fname[5:].isidentifier() and fname[5:] not in self.opaque_methods():
+            m = self.model.own_method("System", fname[5:])
+            if m is not None and not any(isinstance(x, (ast.For, ast.While, ast.Try, ast.With)) for x in ast.walk(m)) \
+                    and sum(1 for x in ast.walk(m) if isinstance(x, ast.stmt)) <= 12:
+                return m, True
         return None
+
+    def opaque_methods(self):
+        """methods the rules refer to by name (roles) or that the reference texts mention: never inlined implicitly"""
+        r = self.roles or {}
+        return {r.get(k) for k in ("SOLVER", "FWD", "BACK", "CHILD_I", "REL_UPDATE", "SET_PHLK")} | \
+            {"_get_index", "_get_parent_name", "_find_domain", "_calc_energy", "_get_parents", "_get_childs", "_get_nodes", "_get_sources", "_get_pmux",
+             "_get_topo_sort", "_sys_vars", "_sys_init", "_chk_parent", "_chk_comp", "_chk_name", "_get_applims", "_filt_lim", "_pars_and_limits",
+             "_get_childs_tree", "_make_rtree", "_get_params"}
 
     def comprehension(self, sm, n, st):
         if isinstance(n, (ast.ListComp, ast.GeneratorExp)) and len(n.generators) == 1 and not n.generators[0].ifs \
@@ -564,9 +584,42 @@ def c02_call_agreement(model, rep):
 
 
 # ------------------------------------------------------------------------------------------------ solver loop anatomy
+def solver_normal_form(fn):
+    """`return E` inside the solver's while loop, where the statement right after the loop is `return E` too, is the same as
+    `break`: rewritten on a copy so that one exit discipline is analysed"""
+    from .core import clone_ast
+    loops = [s for s in fn.body if isinstance(s, ast.While)]
+    if len(loops) != 1:
+        return fn
+    k = fn.body.index(loops[0])
+    if k + 1 >= len(fn.body) or not isinstance(fn.body[k + 1], ast.Return) or fn.body[k + 1].value is None:
+        return fn
+    tail = ast.unparse(fn.body[k + 1].value)
+    inner = [x for x in ast.walk(loops[0]) if isinstance(x, ast.Return) and x.value is not None and ast.unparse(x.value) == tail]
+    if not inner or any(isinstance(x, (ast.For, ast.While)) and x is not loops[0] and any(y in inner for y in ast.walk(x)) for x in ast.walk(loops[0])):
+        return fn
+    new = clone_ast(fn)
+    lp = [s for s in new.body if isinstance(s, ast.While)][0]
+
+    def rewrite(stmts):
+        for i, s in enumerate(stmts):
+            if isinstance(s, ast.Return) and s.value is not None and ast.unparse(s.value) == tail:
+                stmts[i] = ast.copy_location(ast.Break(), s)
+            for fld in ("body", "orelse"):
+                blk = getattr(s, fld, None)
+                if isinstance(blk, list) and not isinstance(s, (ast.For, ast.While)):
+                    rewrite(blk)
+    rewrite(lp.body)
+    ast.fix_missing_locations(new)
+    for node in ast.walk(new):
+        for ch in ast.iter_child_nodes(node):
+            ch._parent = node
+    return new
+
+
 def solver_anatomy(model, r):
     """structure of the SOLVER method: while loop, forward/backward calls, carried triple, convergence test"""
-    fn = model.own_method("System", r["SOLVER"])
+    fn = solver_normal_form(model.own_method("System", r["SOLVER"]))
     loop = find_loop(fn, lambda l: isinstance(l, ast.While), "solver loop")
     an = {"fn": fn, "loop": loop}
     fwd = bwd = None
@@ -1310,113 +1363,25 @@ def parents_reader_rule(model, rep, gp, reg, rule):
 
 
 def find_domain_rule(model, rep, r, rule):
-    """_find_domain: SOURCE -> own name; PMUX -> root of the first input with non-zero voltage; else the argument"""
-    from .idioms import first_match, const_int
+    """_find_domain against its reference text (sa/spec_sys.py): a source is its own domain, a mux belongs to the root source
+    above its first input that carries a voltage, everything else inherits; decided by reference comparison of the path
+    summaries (the index scan in any of its spellings is read as FIRST(..), a scan that keeps the last match as LAST(..))"""
+    from . import refcmp
     rel = model.rel("system")
     fn = model.own_method("System", "_find_domain")
     if fn is None:
         raise AnalysisError("System._find_domain not found")
     where = "%s:%d" % (rel, fn.lineno)
-    params = [a.arg for a in fn.args.args][1:]
-    if len(params) != 3:
-        raise AnalysisError("_find_domain has %d parameters" % len(params))
-    N, DOM, VV = params
-    # branches by type
-    branches = {}
-    tail = None
-    top = [s for s in fn.body if not (isinstance(s, ast.Expr) and isinstance(s.value, ast.Constant))]
-    if not top or not isinstance(top[0], ast.If):
-        raise AnalysisError("_find_domain does not start with a type dispatch")
-    cur = top[0]
-    from .effects import EditHooks, GuardedSummarizer
-    tsm = GuardedSummarizer(EditHooks(model, r, ()), Ctx())
-    tenv = {"self": Sym(("name", "self")), N: Sym(("name", "n")), DOM: Sym(("name", "dom")), VV: Sym(("name", "v"))}
-    node_n = Sym(("sub", Sym(("attr", Sym(("name", "self")), "_g")), Sym(("name", "n"))))
-    while True:
-        t = ast.unparse(cur.test)
-        typ = None
-        f = tsm.cond(cur.test, State(tenv))
-        for name in ("SOURCE", "PMUX"):
-            if f == A(("TYPE", node_n, name)):
-                typ = name
-        if typ is None:
-            neg = [name for name in ("SOURCE", "PMUX") if f == Not(A(("TYPE", node_n, name)))]
-            if neg:
-                rep.violation(rule, "system.System._find_domain", where, "the %s branch is taken for every component that is NOT a %s" % (neg[0], neg[0]), "domain branch inverted " + neg[0])
-                typ = neg[0]
-            else:
-                raise AnalysisError("_find_domain: unrecognised branch test %s" % t)
-        branches[typ] = cur.body
-        if len(cur.orelse) == 1 and isinstance(cur.orelse[0], ast.If):
-            cur = cur.orelse[0]
-        else:
-            if cur.orelse:
-                raise AnalysisError("_find_domain: unexpected else branch")
-            break
-    ok = True
-    src = branches.get("SOURCE")
-    if not (src and len(src) == 1 and isinstance(src[0], ast.Return) and ast.unparse(src[0].value).replace('"', "'") == "self._g[%s]._params['name']" % N):
-        ok = False
-        rep.violation(rule, "system.System._find_domain", where, "a source is not its own domain", "source branch")
-    rest = top[1:]
-    if not (len(rest) == 1 and isinstance(rest[0], ast.Return) and is_name(rest[0].value, DOM)):
-        ok = False
-        rep.violation(rule, "system.System._find_domain", where, "a component that is neither source nor mux does not inherit the domain it is given", "default branch")
-    mux = branches.get("PMUX")
-    if not mux:
-        raise AnalysisError("_find_domain has no PMUX branch")
-    fm = first_match(mux, "_find_domain PMUX branch")
-    if not fm.first:
-        ok = False
-        rep.violation(rule, "system.System._find_domain", where, "the mux is attributed to the LAST input with non-zero voltage, not the first", "mux scan selects last")
-    if const_int(fm.default) != 0:
-        ok = False
-        rep.violation(rule, "system.System._find_domain", where, "with no live input the mux is not attributed to its first input", "mux default")
-    # condition: |V[PARENTS[n][i]]| != 0
-    hooks = SysHooks(model, r)
-    sm = Summarizer(hooks, Ctx())
-    st = State({"self": Sym(("name", "self")), N: Sym(("name", "n")), VV: Sym(("name", "v")), DOM: Sym(("name", "dom"))})
-    for s in mux:
-        if s is fm.loop:
-            break
-        if isinstance(s, ast.Assign):
-            for s2, status in sm.stmt(s, st):
-                st = s2
-    st.env[fm.var] = Sym(("name", "k"))
-    got = sm.cond(fm.cond, st)
-    ref = ast.parse("abs(v[self.%s[n][k]]) != 0.0" % r["PARENTS"], mode="eval").body
-    want = sm.cond(ref, State({"self": Sym(("name", "self")), "n": Sym(("name", "n")), "v": Sym(("name", "v")), "k": Sym(("name", "k"))}))
-    if got != want:
-        ok = False
-        rep.violation(rule, "system.System._find_domain", where, "the mux is attributed by the test %s, expected %s" % (show_f(got), show_f(want)), "mux live test " + show_f(got))
-    # root of the selected input
-    after = mux[mux.index(fm.loop) + 1:]
-    txt = " ".join(ast.unparse(s) for s in after).replace('"', "'")
-    pvar = None
-    for s in mux:
-        if isinstance(s, ast.Assign) and ast.unparse(s.value) == "self.%s[%s]" % (r["PARENTS"], N) and isinstance(s.targets[0], ast.Name):
-            pvar = s.targets[0].id
-    sel = "%s[%s]" % (pvar, fm.result) if pvar else None
-    good = False
-    if sel is not None:
-        anc = [x for x in after if isinstance(x, ast.Assign) and isinstance(x.targets[0], ast.Name) and ast.unparse(x.value).replace(" ", "") == "rx.ancestors(self._g,%s)" % sel]
-        if len(anc) == 1:
-            AN = anc[0].targets[0].id
-            empties = [x for x in after if isinstance(x, ast.If) and cmp_text(x.test) in (cmp_text(ast.parse("%s==set()" % AN, mode="eval").body), "not%s" % AN, cmp_text(ast.parse("len(%s)==0" % AN, mode="eval").body))
-                       and len(x.body) == 1 and isinstance(x.body[0], ast.Return) and ast.unparse(x.body[0].value).replace('"', "'") == "self._g[%s]._params['name']" % sel and not x.orelse]
-            walks = []
-            for lp in after:
-                if isinstance(lp, ast.For) and isinstance(lp.target, ast.Name) and is_name(lp.iter, AN) and len(lp.body) == 1 and isinstance(lp.body[0], ast.If):
-                    i_ = lp.target.id
-                    iff = lp.body[0]
-                    if cmp_text(iff.test) in (cmp_text(ast.parse("self._g.in_degree(%s)==0" % i_, mode="eval").body), "notself._g.in_degree(%s)" % i_) and len(iff.body) == 1 and isinstance(iff.body[0], ast.Return) \
-                            and ast.unparse(iff.body[0].value).replace('"', "'") == "self._g[%s]._params['name']" % i_ and not iff.orelse:
-                        walks.append(lp)
-            good = len(empties) == 1 and len(walks) == 1 and empties[0].lineno < walks[0].lineno
-    if not good:
-        ok = False
-        rep.violation(rule, "system.System._find_domain", where, "the mux's domain is not the root source above its selected input", "mux root walk")
-    rep.instance(rule, "system.System._find_domain", where, ok, "scan form %s" % fm.form)
+    # the reference is written over self._parents: map the role attribute
+    ref = refcmp.spec_function("spec_sys", "_find_domain")
+    if r["PARENTS"] != "_parents":
+        import copy
+        ref = copy.deepcopy(ref)
+        for x in ast.walk(ref):
+            if isinstance(x, ast.Attribute) and x.attr == "_parents":
+                x.attr = r["PARENTS"]
+    ok, rows = refcmp.compare(model, r, fn, ref, rep, rule, "system.System._find_domain", where, "domain lookup", free=("rx",))
+    rep.instance(rule, "system.System._find_domain", where, ok, "%d guard rows" % rows)
     return ok
 
 
